@@ -87,3 +87,34 @@ func vHarness_C10_concat() {
 
 func vProbe_C10_escaped(a []string) string { return HTMLEscaped(a[0]).String() }
 func vProbe_C10_ref(a []string) string     { return refHTMLEscaped(a[0]) }
+
+// placement clause: in element content, RCDATA content and quoted attribute values the
+// escaped text tokenizes as text only and never ends the enclosing construct
+func vHarness_C10_placement() {
+	prefixes := []string{"", "<p>", "<title>", "<textarea>", `<p title="`, `<p title='`}
+	var pre tok
+	pre.run(prefixes[vParam("pre")])
+	s := vNondetString("s", vParam("n"))
+	out := HTMLEscaped(s).String()
+	after := pre
+	after.run(out)
+	vReach("ran")
+	same := after.st == pre.st && after.raw == pre.raw && after.starts == pre.starts && after.ends == pre.ends && after.attrs == pre.attrs && after.comments == pre.comments && after.fp == pre.fp
+	vAssert(same, "escaped text changed the tokenizer state or produced a tag, attribute or comment")
+}
+
+// long inputs: a concrete run of k ASCII letters, then n symbolic bytes, then a concrete
+// tail. The symbolic window slides over the positions where implementations that work in
+// chunks (buffers of 64 ... 4096 bytes) would split a multi-byte sequence.
+func vHarness_C10_long() {
+	k := vParam("k")
+	pad := make([]byte, k)
+	for i := range pad {
+		pad[i] = 'a'
+	}
+	mid := vNondetString("s", vParam("n"))
+	s := string(pad) + mid + "z<"
+	out := HTMLEscaped(s).String()
+	vReach("ran")
+	vAssert(out == string(pad)+refHTMLEscaped(mid)+"z&lt;", "HTMLEscaped of a long input equals the rune-wise reference")
+}
